@@ -1,0 +1,11 @@
+//go:build verif
+
+package cache
+
+// VerifSetNow replaces the package clock (unix seconds) read by the in-memory TTL cache;
+// the returned function restores the previous clock. Verification harness only.
+func VerifSetNow(f func() int64) (restore func()) {
+	var old = now
+	now = f
+	return func() { now = old }
+}
